@@ -14,11 +14,13 @@ from tdda.referencetest.referencetest import ReferenceTest  # noqa: E402
 from tdda.referencetest import referencetestcase as rtc  # noqa: E402
 from props import c19  # noqa: E402
 
-KINDS = [None, 'table', 'graph', 'csv']
+KINDS = [None, 'table', 'graph', 'csv', 'parquet']
 TEXTS = ['', 'a\n', 'a\nb', 'a\r\nb\r\n', 'x\ry\n', 'été\n日本\n', ' lead\ntrail \n', 'a\n\n', '\n', 'tab\tbed\n',
          'line one\nline two\nline three\n', 'a\x0cb\n', 'p q\n',
          # blank and white-space-only lines at either end (what per-line stripping leaves alone and whole-text stripping eats)
-         '\n\nabc\n', 'abc\n\n\n', '  \nabc\n  \n', '\t\nx\n', ' \n \n']
+         '\n\nabc\n', 'abc\n\n\n', '  \nabc\n  \n', '\t\nx\n', ' \n \n',
+         # text that begins with U+FEFF (a spreadsheet export), texts of one length
+         '\ufeffa,b\n1,2\n', '\ufeff', 'abc\n', 'abd\n', 'xyz\n']
 
 
 EXTRA_DTYPES = ['uint8', 'uint16', 'uint32', 'uint64', 'int8', 'int16', 'int32', 'float32', 'bool', 'boolean', 'Int64', 'UInt32',
@@ -78,6 +80,13 @@ def gen_history(rng):
     return ops
 
 
+def same_stat(act, ref):
+    """files of one size get one modification time (unpacked from an archive, checked out together): still two files"""
+    if os.path.exists(ref) and os.path.getsize(ref) == os.path.getsize(act):
+        for p_ in (act, ref):
+            os.utime(p_, (10 ** 9, 10 ** 9))
+
+
 def should(table, kind):
     """independent reading: last setting for the kind, else last setting for all kinds, else no"""
     if kind in table:
@@ -128,6 +137,7 @@ def run_history(ops, pre_existing):
                     act = os.path.join(outdir, 'act.txt')
                     with open(act, 'w', encoding='utf-8', newline='') as f:
                         f.write(o['actual'])
+                    same_stat(act, ref)
                     if o['op'] == 'textfile':
                         r.assertTextFileCorrect(act, ref, kind=o['kind'], **kw)
                     else:
@@ -136,6 +146,7 @@ def run_history(ops, pre_existing):
                     act = os.path.join(outdir, 'act.bin')
                     with open(act, 'wb') as f:
                         f.write(bytes(o['actual']))
+                    same_stat(act, ref)
                     r.assertBinaryFileCorrect(act, ref, kind=o['kind'])
                 else:
                     df = pd.DataFrame(o['actual'])
